@@ -26,3 +26,11 @@ chk("C08", "sched", "stateless preemption-bounded DFS over all schedules of the 
     "Seven 3-thread scenarios (commit vs lookups at self/parent/child-block-cache, sibling commits, same hash twice, removal, key not cached, child committed while parent commits); all schedules with <=2 (quick) / <=3 and unbounded where it completes (thorough) preemptions at LRU-operation granularity; every concurrent hit equals the block-tree value, committed writes are found afterwards, no deadlock. Failures are replayed twice for determinism before being reported.",
     "Scheduling points only before lock acquisitions (every LRU op is one critical section); atomics are not points; the data-race clause is covered only by the auxiliary free-running -race pass (bin/race.sh), which samples schedules.",
     "DESIGN.md section 4 C08")
+chk("C04", "seq+crash", "explicit-state BFS over multi-round block histories with exhaustive crash-prefix enumeration of the save's write stream on a write-log device",
+    "All round histories within the bounds (sequential child transactions merged/discarded, RecordDeadNodes + SaveChanges into PNodeDB): at every save the store is reopened from its log alone and every saved round must be complete; every prefix of the save's writes is a crash point: earlier roots complete, re-execution + re-save yields the same root and a complete state; each write is also failed (error must surface).",
+    "Crash model = prefix of the unsynced write log with atomic batches (RocksDB WAL); RocksDB itself replaced by the stand-in; bounds 2-3 rounds, <=2 txns x <=2 ops, 4-5 paths.",
+    "DESIGN.md section 4 C04")
+chk("C05", "seq+crash", "explicit-state BFS over multi-round histories; per save: reachability oracle for dead-node records, prune at every version with exhaustive crash-prefix enumeration",
+    "All round histories within the bounds incl. delete-then-recreate of identical content within and across rounds: no node recorded dead in round r is reachable from the root of any round >= r (independent walk over decoded device content); for every prune version and every prefix of the prune's write stream the roots at versions >= v stay fully readable, removed keys were recorded dead below v, re-running the prune after a crash converges.",
+    "Same crash model and stand-in as C04; bounds 2-4 rounds, 3-5 paths; whether dead-node records below v are removed and PruneStats are not judged (not stated by the property).",
+    "DESIGN.md section 4 C05")
